@@ -492,12 +492,29 @@ def decompose(chk, F):
     fn = F.find(CORE, "algorithms::fast_decompose::fast_decompose")
     fk = "rink_core::algorithms::fast_decompose::fast_decompose"
     # decided on the MIR (no local names): `best` is the one local that holds Some((name, unit, exponent, score)) tuples
-    tuples = [(i, st) for i, j, st in fn.stmts() if st["rv"].get("k") == "agg" and st["rv"].get("agg") == "tuple" and len(st["rv"]["ops"]) == 4]
+    # ... or the fields of a private struct: the record is the one aggregate of four values, and which component is which is
+    # read from what is put into it (the score is the complexity_score(..) value, the exponent the one that was scored, ..)
+    tuples = [(i, st) for i, j, st in fn.stmts() if st["rv"].get("k") == "agg" and len(st["rv"].get("ops", [])) == 4
+              and (st["rv"].get("agg") == "tuple" or (st["rv"].get("agg") == "adt" and st["rv"].get("fields")))]
     ok = ok2 = ok3 = False
     detail = ""
+    P = {"name": "0", "unit": "1", "exp": "2", "score": "3"}     # projection of each component
     if len(tuples) == 1:
         ti, tst = tuples[0]
-        t_name, t_unit, t_exp, t_score = [fn.apath(o) for o in tst["rv"]["ops"]]
+        aps = [fn.apath(o) for o in tst["rv"]["ops"]]
+        projs = [str(i) for i in range(4)] if tst["rv"].get("agg") == "tuple" else list(tst["rv"]["fields"])
+        si = [i for i, a in enumerate(aps) if "complexity_score(" in ap_str(a)]
+        order = [0, 1, 2, 3]
+        if len(si) == 1 and tst["rv"].get("agg") != "tuple":
+            # name and unit are the two halves (.1 / .0) of the same map entry; the exponent is the remaining one
+            rest = [i for i in range(4) if i != si[0]]
+            nm = [i for i in rest if aps[i][1][-1:] == ("1",)]
+            un = [i for i in rest if aps[i][1][-1:] == ("0",)]
+            ex = [i for i in rest if i not in nm + un]
+            if len(nm) == 1 and len(un) == 1 and len(ex) == 1:
+                order = [nm[0], un[0], ex[0], si[0]]
+        t_name, t_unit, t_exp, t_score = [aps[i] for i in order]
+        P = dict(zip(("name", "unit", "exp", "score"), [projs[i] for i in order]))
         # (a) what is recorded was what was scored: score = complexity_score(unwrap(value / Number{1, clone(unit)}.powi(exp))) with the
         #     same unit (the other half of the derived_units entry the name comes from) and the same exponent
         sc = t_score
@@ -521,14 +538,14 @@ def decompose(chk, F):
             def comp(ap):
                 """which component of the best tuple an access path is (through `as Some .0`), or None"""
                 pr = [p_ for p_ in ap[1] if p_ not in ("as Some",)]
-                return pr[-1] if ap[0][0] == "local" and len(pr) >= 2 and pr[0] == "0" and str(pr[-1]).isdigit() else None
-            key_ok = k[0][0] == "call" and k[0][1].endswith("BaseUnit::new") and comp(k[0][2][0]) == "0"
+                return pr[-1] if ap[0][0] == "local" and len(pr) >= 2 and pr[0] == "0" and str(pr[-1]) in P.values() else None
+            key_ok = k[0][0] == "call" and k[0][1].endswith("BaseUnit::new") and comp(k[0][2][0]) == P["name"]
             e2 = e
             while e2[0][0] == "cast" and not e2[1]:
                 e2 = e2[0][2]
-            exp_ok = comp(e2) == "2"
+            exp_ok = comp(e2) == P["exp"]
             rs = ap_str(r)
-            quot_ok = "arith::Div<" in rs and rs.endswith(".unit") and "Number::powi(" in rs and rs.count("as Some.0.1") >= 1 and rs.count("as Some.0.2") >= 1 and "div(arg1," in rs.replace(">>::div(", ">>::div(").replace("::div(", "div(")[-len(rs):]
+            quot_ok = "arith::Div<" in rs and rs.endswith(".unit") and "Number::powi(" in rs and rs.count("as Some.0." + P["unit"]) >= 1 and rs.count("as Some.0." + P["exp"]) >= 1 and "div(arg1," in rs.replace(">>::div(", ">>::div(").replace("::div(", "div(")[-len(rs):]
             ok = key_ok and exp_ok and quot_ok
             ok2 = "Numeric::one()" in rs
             detail += "; key %s, exponent %s, quotient %s" % (key_ok, exp_ok, quot_ok)
